@@ -90,6 +90,8 @@ def sort_classes(classes: list):
         if hasattr(cls, "_depends_on"):
             cls_deps.extend(cls._depends_on)
         for local_dep in cls_deps:
+            # a hybrid class declared as a dependency stands for its struct
+            local_dep = getattr(local_dep, "_XoStruct", local_dep)
             if local_dep.__name__ not in class_by_name:
                 # Since we keep `classes` and `class_by_name` synchronised, even
                 # if there is a dependency loop, the below on-line modification
